@@ -382,3 +382,137 @@ Proof.
   intros HP. revert s0. induction HP as [|p P Hp HP IH]; intros [|x s0] L; simpl in *; try lia; auto.
   f_equal; [apply Z.div_mul; lia | apply IH; lia].
 Qed.
+
+(* ------------------------------------------------------------------ nest: encode o decode = id *)
+Lemma digits_range ww : pos_list ww -> forall j, Forall2 (fun dg w => 0 <= dg < w) (digits ww j) ww.
+Proof.
+  induction 1 as [|w ww Hw0 Hw IH]; intros j; [constructor|].
+  rewrite digits_cons by assumption. constructor; [apply Z.mod_pos_bound; lia | apply IH].
+Qed.
+
+Lemma digits_inj ww : pos_list ww -> forall a b,
+  0 <= a < zprod ww -> 0 <= b < zprod ww -> digits ww a = digits ww b -> a = b.
+Proof.
+  induction 1 as [|w ww Hw0 Hw IH]; intros a b Ha Hb E.
+  - rewrite zprod_nil in *. lia.
+  - rewrite !digits_cons in E by assumption. rewrite zprod_cons in *.
+    pose proof (zprod_pos' ww Hw) as Pz. injection E as E1 E2.
+    assert (Qa : 0 <= a / zprod ww < w) by (split; [apply Z.div_pos; lia | apply Z.div_lt_upper_bound; nia]).
+    assert (Qb : 0 <= b / zprod ww < w) by (split; [apply Z.div_pos; lia | apply Z.div_lt_upper_bound; nia]).
+    rewrite !Z.mod_small in E1 by assumption.
+    rewrite (Z.div_mod a (zprod ww)), (Z.div_mod b (zprod ww)) in E2 by lia.
+    rewrite (Z.mul_comm (zprod ww) (a / zprod ww)), (Z.mul_comm (zprod ww) (b / zprod ww)) in E2.
+    rewrite !digits_shift in E2 by assumption.
+    assert (E3 : a mod zprod ww = b mod zprod ww).
+    { apply IH; try assumption; apply Z.mod_pos_bound; lia. }
+    rewrite (Z.div_mod a (zprod ww)), (Z.div_mod b (zprod ww)) by lia. rewrite E1, E3. reflexivity.
+Qed.
+
+(* nest_enc of the later levels sees an index only modulo their column products *)
+Lemma nest_j_shift idx P ww M : forall j0,
+  length idx = length ww -> length P = length ww -> length M = length ww -> pos_list P -> pos_list ww ->
+  nest_j (map2 Z.add idx (map2 Z.mul (map2 Z.mul ww P) M)) P ww j0 = nest_j idx P ww j0.
+Proof.
+  revert P ww M. induction idx as [|i idx IH]; intros [|p P] [|w ww] [|m M] j0 L1 L2 L3 HP Hw; simpl in *; try lia; auto.
+  inversion HP; inversion Hw; subst. unfold gen_nest_j_step.
+  replace ((i + w * p * m) / p) with (i / p + w * m) by (replace (w * p * m) with (w * m * p) by ring; rewrite Z.div_add by lia; reflexivity).
+  replace ((i / p + w * m) mod w) with ((i / p) mod w) by (rewrite Z.mul_comm, Z.mod_add by lia; reflexivity).
+  apply IH; auto.
+Qed.
+
+Lemma map2_add_length (a b : list Z) : length a = length b -> length (map2 Z.add a b) = length a.
+Proof. apply map2_length. Qed.
+
+Lemma nest_enc_shift d wgts : wf_rows d wgts -> forall idx M fid,
+  length idx = d -> length M = d ->
+  nest_enc wgts (map2 Z.add idx (map2 Z.mul (colprods d wgts) M)) fid = nest_enc wgts idx fid.
+Proof.
+  induction 1 as [|ww rest [Lw Pw] Hr IH]; intros idx M fid Li LM; [reflexivity|].
+  cbn [nest_enc]. rewrite Lw.
+  destruct (colprods_wf d rest Hr) as [LP PP].
+  rewrite colprods_cons by assumption.
+  rewrite nest_j_shift by (try assumption; lia).
+  (* for the remaining levels the shift is P_rest * (ww * M) *)
+  replace (map2 Z.mul (map2 Z.mul ww (colprods d rest)) M) with (map2 Z.mul (colprods d rest) (map2 Z.mul ww M)).
+  - apply IH; [assumption | rewrite map2_length; lia].
+  - rewrite (map2_mul_comm ww (colprods d rest)), <- map2_mul_assoc'. reflexivity.
+Qed.
+
+Lemma digit_list_shift idx P ww dgs :
+  in_box idx P -> Forall2 (fun dg w => 0 <= dg < w) dgs ww -> length P = length ww ->
+  digit_list (map2 Z.add idx (map2 Z.mul P dgs)) P ww = dgs /\
+  in_box (map2 Z.add idx (map2 Z.mul P dgs)) (map2 Z.mul ww P).
+Proof.
+  intros B. revert ww dgs. induction B as [|i p idx P Hi B IH]; intros ww dgs F L.
+  - destruct ww; simpl in L; try lia. inversion F; subst. split; constructor.
+  - destruct ww as [|w ww]; simpl in L; try lia. inversion F as [|dg ? dgs' ? Hd F']; subst.
+    destruct (IH ww dgs' F' ltac:(lia)) as [E Bx]. unfold digit_list in *. simpl. split.
+    + f_equal; [|exact E].
+      replace ((i + p * dg) / p) with dg by (rewrite Z.mul_comm, Z.div_add, Z.div_small by lia; lia).
+      apply Z.mod_small. lia.
+    + constructor; [nia | exact Bx].
+Qed.
+
+Lemma map3_as_map2 idx P dgs :
+  map3 (fun x p dg => x + p * dg) idx P dgs = map2 Z.add idx (map2 Z.mul P dgs).
+Proof. revert P dgs. induction idx as [|i idx IH]; intros [|p P] [|g dgs]; simpl; auto. f_equal. apply IH. Qed.
+
+Lemma in_box_zeros d : in_box (repeat 0 d) (repeat 1 d).
+Proof. induction d; simpl; constructor; [lia | assumption]. Qed.
+
+Lemma Forall2_length {A B} (R : A -> B -> Prop) l1 l2 : Forall2 R l1 l2 -> length l1 = length l2.
+Proof. induction 1; simpl; lia. Qed.
+
+Lemma nest_enc_dec_gen d wgts : wf_rows d wgts -> forall f, 0 <= f ->
+  let r := nest_dec d wgts f in
+  f = fst r * zprod_all wgts + nest_enc wgts (snd r) 0 /\ in_box (snd r) (colprods d wgts) /\ 0 <= fst r.
+Proof.
+  induction 1 as [|ww rest [Lw Pw] Hr IH]; intros f Hf.
+  - cbn [nest_dec nest_enc fst snd]. unfold zprod_all. cbn [map]. rewrite zprod_nil, colprods_nil.
+    split; [lia|]. split; [apply in_box_zeros | assumption].
+  - cbn [nest_dec]. destruct (nest_dec d rest f) as [f' ix] eqn:Er.
+    specialize (IH f Hf). rewrite Er in IH. cbn [fst snd] in IH. destruct IH as (Ef & Bx & Hf').
+    cbn [fst snd].
+    destruct (colprods_wf d rest Hr) as [LP PP].
+    pose proof (zprod_pos' ww Pw) as Pz.
+    set (j := f' mod zprod ww).
+    assert (Hj : 0 <= j < zprod ww) by (apply Z.mod_pos_bound; lia).
+    pose proof (digits_range ww Pw j) as DR.
+    pose proof (Forall2_length _ _ _ DR) as LD.
+    pose proof (in_box_length _ _ Bx) as Lix.
+    rewrite map3_as_map2.
+    destruct (digit_list_shift ix (colprods d rest) ww (digits ww j) Bx DR ltac:(lia)) as [ED BX'].
+    set (ix' := map2 Z.add ix (map2 Z.mul (colprods d rest) (digits ww j))) in *.
+    assert (Lix' : length ix' = d) by (subst ix'; rewrite map2_length; [lia | rewrite map2_length; lia]).
+    split; [|split].
+    + cbn [nest_enc]. rewrite Lw.
+      destruct (nest_j_split ix' (colprods d rest) ww Pw ltac:(lia) ltac:(lia) 0) as [_ RJ].
+      assert (EJ : nest_j ix' (colprods d rest) ww 0 = j).
+      { apply (digits_inj ww Pw); try assumption.
+        rewrite digits_nest_j by (try assumption; lia). exact ED. }
+      rewrite EJ.
+      destruct (nest_enc_split d rest ix' Hr Lix' (0 * zprod ww + j)) as [E1 _]. rewrite E1.
+      subst ix'. rewrite nest_enc_shift by (try assumption; lia).
+      unfold zprod_all. cbn [map]. rewrite zprod_cons. fold (zprod_all rest).
+      rewrite Ef at 1. rewrite (Z.div_mod f' (zprod ww)) at 1 by lia. fold j. ring.
+    + rewrite colprods_cons by assumption. exact BX'.
+    + apply Z.div_pos; lia.
+Qed.
+
+Theorem nest_enc_dec d wgts f :
+  wf_rows d wgts -> 0 <= f < zprod_all wgts ->
+  nest_enc wgts (snd (nest_dec d wgts f)) 0 = f /\ in_box (snd (nest_dec d wgts f)) (colprods d wgts).
+Proof.
+  intros W Hf. destruct (nest_enc_dec_gen d wgts W f ltac:(lia)) as (E & B & H0).
+  split; [|exact B].
+  assert (HL : length (snd (nest_dec d wgts f)) = d).
+  { rewrite (in_box_length _ _ B). exact (proj1 (colprods_wf d wgts W)). }
+  destruct (nest_enc_split d wgts (snd (nest_dec d wgts f)) W HL 0) as [_ R].
+  assert (Pz : 0 < zprod_all wgts) by lia.
+  assert (fst (nest_dec d wgts f) = 0) by nia. rewrite H in E. lia.
+Qed.
+
+Theorem flat_nest_enc_dec fl ls f :
+  f_serial fl = false -> wf_rows (flat_ndim fl) (weights_nest fl ls) -> 0 <= f < zprod_all (weights_nest fl ls) ->
+  idx2flat fl ls (flat2idx fl ls f) = f /\ in_box (flat2idx fl ls f) (colprods (flat_ndim fl) (weights_nest fl ls)).
+Proof. intros S W Hf. unfold flat2idx, idx2flat. rewrite S. apply nest_enc_dec; assumption. Qed.
